@@ -8,8 +8,10 @@ import (
 	"fmt"
 	"os"
 	"path/filepath"
+	"regexp"
 	"sort"
 	"strings"
+	"time"
 )
 
 // the adversarial substitution alphabet
@@ -228,6 +230,7 @@ func checkC07(c *Ctx) {
 			}
 		}
 	}
+	c.stageEntries(rng)
 	c.Ev.Exhaustive = false
 	c.Ev.Extra["cases_run"] = ran
 	var kinds []string
@@ -235,4 +238,216 @@ func checkC07(c *Ctx) {
 		kinds = append(kinds, k)
 	}
 	sort.Strings(kinds)
+}
+
+
+// ---- direct entry points (C07's observe_at): selector.ParseGroup, tree.NewCSSDefault,
+// validation.PreprocessDeclarations / descriptors, parser.Tokenize & co, svg.Parse,
+// utils.DefaultUrlFetcher(data:), parser.ParseColorString, fed with text taken from the
+// corpus resources and cut / corrupted like a fetched resource would be.
+
+type entryText struct {
+	kind, text, from string
+}
+
+var (
+	reRule     = regexp.MustCompile(`([^{}@;]+)\{([^{}]*)\}`)
+	reAtBlock  = regexp.MustCompile(`@(font-face|counter-style[^{]*|page[^{]*)\{([^{}]*)\}`)
+	reStyleAt  = regexp.MustCompile(`style="([^"]*)"`)
+	reStyleEl  = regexp.MustCompile(`(?s)<style[^>]*>(.*?)</style>`)
+	reSvgEl    = regexp.MustCompile(`(?s)<svg[ >].*?</svg>`)
+	reDataURL  = regexp.MustCompile(`data:[^"')\s>]+`)
+	reColor    = regexp.MustCompile(`#[0-9a-fA-F]{3,8}\b|rgba?\([^)]*\)|hsla?\([^)]*\)`)
+	reMediaImp = regexp.MustCompile(`@(media|import|supports|namespace)[^{;]*[{;]`)
+)
+
+func (c *Ctx) entryTexts() []entryText {
+	seen := map[string]bool{}
+	var out []entryText
+	add := func(kind, text, from string) {
+		text = strings.TrimSpace(text)
+		if text == "" || len(text) > 4000 {
+			return
+		}
+		k := kind + "\x00" + text
+		if seen[k] {
+			return
+		}
+		seen[k] = true
+		out = append(out, entryText{kind, text, from})
+	}
+	css := func(txt, from string) {
+		add("stylesheet", txt, from)
+		add("tokens", txt, from)
+		for _, m := range reRule.FindAllStringSubmatch(txt, -1) {
+			add("selector", m[1], from)
+			add("declarations", m[2], from)
+			add("tokens", m[2], from)
+		}
+		for _, m := range reAtBlock.FindAllStringSubmatch(txt, -1) {
+			add("fontface", m[2], from)
+		}
+		for _, m := range reMediaImp.FindAllString(txt, -1) {
+			add("stylesheet", m+" p { color: red } }", from)
+		}
+		for _, m := range reColor.FindAllString(txt, -1) {
+			add("color", m, from)
+		}
+	}
+	for _, sc := range c.Corpus.List {
+		names := append([]string{sc.Main}, sc.FileNames()...)
+		for _, fn := range names {
+			b, err := os.ReadFile(filepath.Join(sc.Dir, fn))
+			if err != nil {
+				continue
+			}
+			txt := string(b)
+			from := sc.Name + "/" + fn
+			switch {
+			case strings.HasSuffix(fn, ".css"):
+				css(txt, from)
+			case strings.HasSuffix(fn, ".svg"):
+				add("svg", txt, from)
+			case strings.HasSuffix(fn, ".html"):
+				for _, m := range reStyleEl.FindAllStringSubmatch(txt, -1) {
+					css(m[1], from)
+				}
+				for _, m := range reStyleAt.FindAllStringSubmatch(txt, -1) {
+					add("declarations", m[1], from)
+				}
+				for _, m := range reSvgEl.FindAllString(txt, -1) {
+					add("svg", m, from)
+				}
+			}
+			for _, m := range reDataURL.FindAllString(txt, -1) {
+				add("dataurl", m, from)
+			}
+		}
+		for _, fn := range sc.UserCSS {
+			if b, err := os.ReadFile(filepath.Join(sc.Dir, fn)); err == nil {
+				css(string(b), sc.Name+"/"+fn)
+			}
+		}
+	}
+	sort.Slice(out, func(i, j int) bool {
+		if out[i].kind != out[j].kind {
+			return out[i].kind < out[j].kind
+		}
+		return out[i].text < out[j].text
+	})
+	return out
+}
+
+func (c *Ctx) stageEntries(rng *Rng) {
+	texts := c.entryTexts()
+	byKind := map[string]int{}
+	type ecase struct {
+		kind, text string
+	}
+	var all []ecase
+	interesting := func(b byte) bool { return strings.IndexByte("+-\\(\"'/*#@.:eEuU%!,=<&[]{}~|^$>", b) >= 0 }
+	for _, t := range texts {
+		byKind[t.kind]++
+		all = append(all, ecase{t.kind, t.text})
+		big := t.kind == "stylesheet" || t.kind == "svg" || (t.kind == "tokens" && len(t.text) > 400)
+		// truncations
+		for k := 0; k < len(t.text); k++ {
+			keep := c.Tier == "thorough" && !big
+			if !keep && k > 0 && interesting(t.text[k-1]) && (!big || rng.Intn(4) == 0) {
+				keep = true
+			}
+			if !keep && rng.Intn(12) == 0 {
+				keep = true
+			}
+			if keep {
+				all = append(all, ecase{t.kind, t.text[:k]})
+			}
+		}
+		// substitutions
+		n := 6
+		if c.Tier == "thorough" {
+			n = 60
+		}
+		if big {
+			n *= 3
+		}
+		for i := 0; i < n && len(t.text) > 0; i++ {
+			k := rng.Intn(len(t.text))
+			b := []byte(t.text)
+			b[k] = adversarial[rng.Intn(len(adversarial))]
+			all = append(all, ecase{t.kind, string(b)})
+		}
+	}
+	c.Ev.Extra["entry_point_texts"] = byKind
+	c.Ev.Extra["entry_point_cases"] = len(all)
+	// batches of ops per spec
+	const per = 150
+	var specs []*Spec
+	for off := 0; off < len(all); off += per {
+		end := off + per
+		if end > len(all) {
+			end = len(all)
+		}
+		sp := &Spec{ID: fmt.Sprintf("C07/entry/%d", off), Order: OrderPlan{Mode: "canon"}, Budget: 2000000000}
+		var ops []Op
+		for i, e := range all[off:end] {
+			ops = append(ops, Op{Op: "entry", ID: fmt.Sprintf("e%d", off+i), Kind: e.kind, Text: e.text})
+		}
+		sp.Tasks = [][]Op{ops}
+		specs = append(specs, sp)
+	}
+	c.Logf("C07 entry points: %d texts %v, %d cases in %d batches", len(texts), byKind, len(all), len(specs))
+	report := func(sp *Spec, cl, where, detail string, e Op) {
+		for _, f := range c.Findings {
+			if f.Class == cl && f.Where == where {
+				c.Ev.Probes["crashing_cases_same_site"]++
+				return
+			}
+		}
+		one := &Spec{ID: sp.ID + "/" + e.ID, Order: OrderPlan{Mode: "canon"}, Budget: 2000000000, Tasks: [][]Op{{e}}}
+		c.Findings = append(c.Findings, &Finding{Class: cl, Scenario: "entry:" + e.Kind, Where: where,
+			Detail: fmt.Sprintf("entry point %s on %q: %s", e.Kind, clip(e.Text, 300), detail), Oracle: "parser entry point returns (error / nil allowed)", Spec: one, Expect: cl + "@" + where})
+	}
+	const chunk = 512
+	for off := 0; off < len(specs); off += chunk {
+		if c.TimeLeft() < -60*time.Second && off > 0 {
+			c.Ev.Extra["entry_batches_skipped_for_time"] = len(specs) - off
+			break
+		}
+		end := off + chunk
+		if end > len(specs) {
+			end = len(specs)
+		}
+		results := c.Pool.Run(specs[off:end], nil)
+		for i, r := range results {
+			sp := specs[off+i]
+			c.Ev.Evals += len(sp.Tasks[0])
+			for _, o := range sp.Tasks[0] {
+				c.Ev.Distinct("entry|" + o.Kind + "|" + o.Text)
+			}
+			if r.Fatal != "" {
+				// find the culprit(s): run each op of the batch alone
+				for _, e := range sp.Tasks[0] {
+					one := &Spec{ID: sp.ID + "/" + e.ID, Order: OrderPlan{Mode: "canon"}, Budget: 2000000000, Tasks: [][]Op{{e}}}
+					r1 := c.Pool.RunFresh(one)
+					if cl, wh, de := crashOf(r1); cl != "" {
+						report(sp, cl, wh, de, e)
+					}
+				}
+				continue
+			}
+			for j := range r.Ops {
+				o := &r.Ops[j]
+				if o.Status == "panic" || o.Status == "budget" {
+					var e Op
+					for _, x := range sp.Tasks[0] {
+						if x.ID == o.ID {
+							e = x
+						}
+					}
+					report(sp, o.Status, o.Frame, clip(o.Err, 200), e)
+				}
+			}
+		}
+	}
 }
